@@ -34,6 +34,11 @@ SEMANTIC = {
     "undefined-operand": "lda.w undef_zz",
     "undefined-db": ".db 1, undef_zz",
     "undefined-dw": ".dw undef_zz",
+    "undefined-dl": ".dl 0x123456, undef_zz",
+    "undefined-pointer": ".pointer undef_zz",
+    "undefined-pointer-list": ".pointer 0x01, undef_zz + 1",
+    "undefined-indexed-operand": "sta.l undef_zz,x",
+    "undefined-immediate": "lda.b #undef_zz & 0xff",
 }
 LEXICAL = {
     "bad-suffix": "lda.q 5",
